@@ -13,7 +13,7 @@ N_THOROUGH = 6000
 THOROUGH_EXHAUSTIVE = True
 RULE = ('cases = corpus + random (data 0..48 bytes, Content-Length below/equal/above the data and negative, '
         'buffer 1..12, fragmentation schedules of short reads, early EOF, optional max_body_size), run through '
-        '_body_read directly and through Request.body (read twice, again through request.copy() after a partial read, again after a header is rewritten through Request.__setitem__ following a partial read, with wsgi.input a real io.BytesIO (recording subclass) holding more than the body or with a consumed prefix, and with WSGI extension flags / unrelated headers / other verbs in the environ: wsgi.input_terminated, Transfer-Encoding: identity, Expect, PUT/GET, HTTP/1.0, json/form content types), a fifth of them with a multipart Content-Type (closing delimiter + epilogue: the markup is fed while buffering); a tenth go through Ombott.__call__ with the body read at several points of the life of the request (before_request hook, handler, the generator the handler returned — before and after its first chunk —, after_request hook; a third of them with the extra environ entries); a seventh of the cases are op sequences on the family of request objects descending from one request by copy() (model/ReqBody.v: body.read(k), copy(), rewrites of Content-Length and of other headers, a new wsgi.input) compared output by output and stream by stream; thorough adds every schedule of length <= 5 over read '
+        '_body_read directly and through Request.body (read twice, again through request.copy() after a partial read, again after a header is rewritten through Request.__setitem__ following a partial read, with wsgi.input a real io.BytesIO (recording subclass) holding more than the body or with a consumed prefix, and with WSGI extension flags / unrelated headers / other verbs in the environ: wsgi.input_terminated, Transfer-Encoding: identity, Expect, PUT/GET, HTTP/1.0, json/form content types), a fifth of them with a multipart Content-Type (closing delimiter + epilogue: the markup is fed while buffering); a tenth go through Ombott.__call__ with the body read at several points of the life of the request (before_request hook, handler, the generator the handler returned — before and after its first chunk —, after_request hook; a third of them with the extra environ entries; a third also hand the environ, without the ombott.* cache keys, to a second Request as a dispatcher would to an application mounted behind: it must be presented the same body and the server stream must not be read past Content-Length); a seventh of the cases are op sequences on the family of request objects descending from one request by copy() (model/ReqBody.v: body.read(k), copy(), rewrites of Content-Length and of other headers, a new wsgi.input) compared output by output and stream by stream; thorough adds every schedule of length <= 5 over read '
         'caps {1,2,3,full} x body sizes 0..10 x buffers 1..4 x CL in {len-1,len,len+2} (exhaustive). '
         'non-trivial = at least two reads were issued and at least one of them was short or the body spilled; '
         'distinct by (len, cl, buf, schedule prefix actually consumed, via)')
